@@ -60,7 +60,12 @@ var hostTokens = []token{
 }
 
 var portTokens = []token{{"none", ""}, {"port", "%3A8080"}, {"port-443", "%3A443"}, {"port-lower-hex", "%3a8080"}, {"port-empty", "%3A"}, {"port-too-large", "%3A99999"},
-	{"port-zero", "%3A0"}, {"port-alpha", "%3Aabc"}, {"port-twice", "%3A80%3A81"}, {"port-leading-zero", "%3A08080"}, {"port-negative", "%3A-1"}}
+	{"port-zero", "%3A0"}, {"port-alpha", "%3Aabc"}, {"port-twice", "%3A80%3A81"}, {"port-leading-zero", "%3A08080"}, {"port-negative", "%3A-1"},
+	// boundary values of the port (index >= firstBoundaryPort: path depth limited, the path alphabet does not interact with the port)
+	{"port-1", "%3A1"}, {"port-80", "%3A80"}, {"port-442", "%3A442"}, {"port-444", "%3A444"}, {"port-4430", "%3A4430"}, {"port-8443", "%3A8443"}, {"port-65535", "%3A65535"},
+	{"port-65536", "%3A65536"}, {"port-443-leading-zero", "%3A0443"}, {"port-443-leading-zeros", "%3A00443"}, {"port-443-plus", "%3A%2B443"}, {"port-443-trailing-colon", "%3A443%3A"}}
+
+const firstBoundaryPort = 11
 
 var segTokens = []token{
 	{"plain", "alice"}, {"plain-mixed", "Al1ce_b-c.d"}, {"plus", "%2B"}, {"plus-lower", "%2b"}, {"plus-inside", "a%2Bb"}, {"encoded-slash", "%2F"}, {"encoded-slash-inside", "a%2Fb"},
@@ -108,6 +113,13 @@ func forEachGrammar(depth int, fullHosts bool, fn func(idx int, c gramCase)) int
 			}
 			if !fullHosts && (hi > 12 && pi > 3) && d > 1 {
 				d = 1
+			}
+			if pi >= firstBoundaryPort {
+				if fullHosts && d > 2 {
+					d = 2
+				} else if !fullHosts && d > 1 {
+					d = 1
+				}
 			}
 			rec("did:web:"+h.Text+p.Text, "host="+h.Class+" port="+p.Class, d)
 		}
@@ -209,7 +221,8 @@ func oddities(classes string) []string {
 	var out []string
 	for _, f := range strings.Fields(strings.ReplaceAll(classes, "/", " seg=")) {
 		switch f {
-		case "host=domain", "host=domain-sub", "port=none", "port=port", "port=port-443", "seg=plain", "seg=plain-mixed", "host=domain-mixed-case":
+		case "host=domain", "host=domain-sub", "port=none", "port=port", "port=port-443", "seg=plain", "seg=plain-mixed", "host=domain-mixed-case",
+			"port=port-1", "port=port-80", "port=port-442", "port=port-444", "port=port-4430", "port=port-8443", "port=port-65535":
 		default:
 			out = append(out, f)
 		}
@@ -217,7 +230,79 @@ func oddities(classes string) []string {
 	return out
 }
 
+// sectionURLDirection: the other direction of the conversion. Every URL of {domain hosts} x {no port, boundary ports} x {paths a node
+// or a tenant can have, with and without trailing slash / did.json} goes through URLToDID and back through DIDToURL. Judged: the
+// identifier encodes exactly the URL's host and port (the origin), and for URLs in canonical form (no trailing slash, no did.json)
+// the URL comes back; an identifier of the round-trip domain obtained this way also obeys DID -> URL -> DID.
+func sectionURLDirection(r *ev.Run) {
+	hosts := []string{"example.com", "a.b-c.example.nl", "ExAmple.COM", "localhost", "xn--bcher-kva.example"}
+	ports := []string{"", ":1", ":80", ":442", ":443", ":444", ":4430", ":8080", ":8443", ":65535"}
+	paths := []struct {
+		path      string
+		canonical bool
+		segs      []string
+	}{{"", true, nil}, {"/", false, nil}, {"/alice", true, []string{"alice"}}, {"/alice/", false, []string{"alice"}}, {"/iam/alice", true, []string{"iam", "alice"}},
+		{"/Al1ce_b-c.d/x", true, []string{"Al1ce_b-c.d", "x"}}, {"/alice+and+bob/path", true, []string{"alice+and+bob", "path"}}, {"/443", true, []string{"443"}},
+		{"/did.json", false, nil}, {"/.well-known/did.json", false, nil}, {"/alice/did.json", false, []string{"alice"}}, {"/iam/alice/did.json", false, []string{"iam", "alice"}}}
+	n := 0
+	for _, h := range hosts {
+		for _, p := range ports {
+			for _, pa := range paths {
+				raw := "https://" + h + p + pa.path
+				u, err := url.Parse(raw)
+				if err != nil {
+					continue
+				}
+				n++
+				c := gramCase{ID: raw, Classes: "url-direction"}
+				r.Eval("url:" + raw)
+				d, derr := didweb.URLToDID(*u)
+				if derr != nil {
+					r.Outcome("web: URLToDID refuses")
+					r.Observation("URLToDID refuses a plain https URL: path "+pa.path, nil)
+					continue
+				}
+				r.Outcome("web: URLToDID converts")
+				w := splitWebID(d.ID)
+				if stripEmptyPort(w.Host) != u.Host {
+					r.Violation("C18|web|url-to-did|other-host", fmt.Sprintf("URLToDID(%q) = %q: the identifier encodes origin %q, the URL has %q", raw, d.String(), w.Host, u.Host), c)
+				}
+				if len(w.Segs) != len(pa.segs) {
+					r.Violation("C18|web|url-to-did|other-path", fmt.Sprintf("URLToDID(%q) = %q: %d path segments for %d", raw, d.String(), len(w.Segs), len(pa.segs)), c)
+				} else {
+					for i := range w.Segs {
+						if decodeOrRaw(w.Segs[i]) != pa.segs[i] {
+							r.Violation("C18|web|url-to-did|other-path", fmt.Sprintf("URLToDID(%q) = %q: segment %d differs", raw, d.String(), i), c)
+							break
+						}
+					}
+				}
+				back, berr := didweb.DIDToURL(*d)
+				if berr != nil {
+					r.Violation("C18|web|url-round-trip|refused", fmt.Sprintf("DIDToURL(URLToDID(%q) = %q) fails: %v", raw, d.String(), berr), c)
+					continue
+				}
+				if stripEmptyPort(back.Host) != u.Host || back.Scheme != "https" {
+					r.Violation("C18|web|url-round-trip|other-host", fmt.Sprintf("DIDToURL(URLToDID(%q)) = %q", raw, back.String()), c)
+				}
+				if pa.canonical && back.EscapedPath() != u.EscapedPath() {
+					r.Violation("C18|web|url-round-trip|other-path", fmt.Sprintf("DIDToURL(URLToDID(%q)) = %q", raw, back.String()), c)
+				}
+				if roundTripDomain(w) {
+					if again, aerr := didweb.URLToDID(*back); aerr != nil || again.String() != d.String() {
+						r.Violation("C18|web|round-trip|differs", fmt.Sprintf("URLToDID(DIDToURL(%q)) = %v (%v); the identifier came from URLToDID(%q)", d.String(), again, aerr, raw), c)
+					}
+				}
+			}
+		}
+	}
+	r.Bound("web_urls_other_direction", n)
+}
+
 func sectionGrammar(t *testing.T, r *ev.Run) {
+	if r.Mine(3) {
+		sectionURLDirection(r)
+	}
 	depth := 3
 	total := forEachGrammar(depth, r.Thorough(), nil)
 	r.Bound("web_identifier_path_depth", depth)
